@@ -37,6 +37,30 @@ def setup():
   courier_server.CourierServer.__del__ = lambda self: None
 
 
+class answer_when_given_up:
+  """Schedule injection for 'presumed_dead': the parked reply of a worker is delivered at the very moment its client
+  answers "not alive" (the narrowest window between the caller's `done()` check and what it does about a dead worker)."""
+
+  def __enter__(self):
+    import courier  # pylint: disable=g-import-not-at-top
+    from ml_metrics._src.utils import courier_utils  # pylint: disable=g-import-not-at-top
+    # Task.is_alive is what the retry loops ask right after they found the task's call not done
+    self.cls = courier_utils.Task
+    self.orig = self.cls.is_alive
+    orig = self.orig
+
+    def is_alive(task):
+      alive = orig.fget(task)
+      if not alive:
+        courier.release_address(task.worker.address)
+      return alive
+    self.cls.is_alive = property(is_alive)
+    return self
+
+  def __exit__(self, *exc):
+    self.cls.is_alive = self.orig
+
+
 def install_plan(cl, plan, plan_delay=0.05):
   """plan: {worker index: {method: [actions]}}; translates die_graceful and restart into transport hooks."""
   import courier  # pylint: disable=g-import-not-at-top
@@ -88,7 +112,8 @@ def run_tasks(case):
   dist.seed_random(case.get('rseed', 0))
   what = f'{case}'
   cl = dist.Cluster(case['workers'], tag='t')
-  install_plan(cl, case['plan'])
+  at_give_up = case.get('answer_at') == 'give_up'
+  install_plan(cl, case['plan'], 1000.0 if at_give_up else case.get('answer_after', 0.05))
   tasks = [lf.trace(targets.raise_value_error)(f'task {t[1]}') if t[0] == 'fail' else lf.trace(targets.counted_add)(t[1], 1000)
            for t in case['tasks']]
   out = []
@@ -96,8 +121,10 @@ def run_tasks(case):
   def body():
     for r in orchestrate.as_completed(cl.pool, tasks):
       out.append(r)
+  import contextlib  # pylint: disable=g-import-not-at-top
   try:
-    status, res = dist.run_with_watchdog(body, 120)
+    with (answer_when_given_up() if at_give_up else contextlib.nullcontext()):
+      status, res = dist.run_with_watchdog(body, 120)
     acquired = [w.address for w in cl.pool.acquired_workers]
     hit = courier.STATS['faults_hit']
   finally:
@@ -141,7 +168,8 @@ def strat_tasks(tier):
     workers = draw(st.sampled_from([1, 2, 2, 3]))
     tasks = draw(st.lists(st.tuples(st.sampled_from(['ok', 'ok', 'ok', 'ok', 'ok', 'ok', 'ok', 'fail']), st.integers(0, 7)).map(list),
                           min_size=1, max_size=8, unique_by=lambda t: t[1]))
-    return {'workers': workers, 'tasks': tasks, 'plan': _plan(draw, workers, ['maybe_make'], 5), 'rseed': draw(st.integers(0, 10**6))}
+    return {'workers': workers, 'tasks': tasks, 'plan': _plan(draw, workers, ['maybe_make'], 5), 'rseed': draw(st.integers(0, 10**6)),
+            'answer_after': draw(st.sampled_from([0.005, 0.02, 0.05])), 'answer_at': draw(st.sampled_from(['later', 'later', 'give_up']))}
   return s()
 
 
